@@ -7,9 +7,4 @@ export CARGO_NET_OFFLINE=true
 mkdir -p .build evidence replays
 # builds the harness and the hooked release CLI from /repo's working tree; C18 is the cheapest check
 ./check C18 quick >/dev/null || { echo "setup: harness build or smoke check failed" >&2; exit 1; }
-# warm the oracle crates (real serde, C19 twins) so that the first quick run does not pay for them
-if [ -x "$VERIF/.build/harness-main/target/debug/tsv" ]; then
-  VERIF_DIR="$VERIF" VERIF_REPO="${VERIF_REPO:-/repo}" VERIF_BUILD="$VERIF/.build" \
-    "$VERIF/.build/harness-main/target/debug/tsv" WARM quick >/dev/null 2>&1 || true
-fi
 echo "setup ok"
